@@ -454,6 +454,89 @@ def _dispatch(h, g):
     h.cover("dispatch explored")
 
 
+class AnyRecords:
+    """A frame's record list of arbitrary length, as the dispatch loops see it: `for r in records` binds every
+    record once, in order.  Rule: (branch 0) the loop body is executed for one arbitrary record (symbolic id),
+    (branch 1) after the loop the shared state is arbitrary (the body awaits)."""
+
+    def __init__(self, world, make_record):
+        self.w = world
+        self.make = make_record
+        self.generic = None
+
+    def py_for(self, it, node, env):
+        if self.w.nondet(2, "for-every-record") == 0:
+            self.generic = self.make()
+            it.assign(node.target, self.generic, env)
+            from pyvc.interp import _Return, _Break, _Continue
+            try:
+                it.exec_block(node.body, env)
+            except _Continue:
+                pass
+            except (_Return, _Break):
+                it.path.oblige("the loop goes on to the next record after every record (no early return / break)", False, kind="site")
+            raise LoopCut()
+        aio.suspend(it, ("for-every-record",))
+        return None
+
+
+def _dispatch_any(h, g):
+    """_process_*_status_message for a frame with ANY number of records: an arbitrary record is applied to the entity
+    with its id (exactly one update call, with that record) and skipped when no entity has that id.  With the update
+    contracts (latest record stored) this is 'last writer wins' for partial frames, repeats and unknown ids."""
+    if not h.symbolic:
+        return
+    G = GEN[g]
+    E = Env(h, g, "CONNECTED")
+    kind = h.choice("kind", ["acstatus", "timer", "zstatus"])
+    log = []
+    target_attr = "_zones" if kind == "zstatus" else "_air_conditioners"
+    method = {"acstatus": "update_ac_status", "timer": "update_ac_timer_status",
+              "zstatus": "update_group_status" if g == 4 else "update_zone_status"}[kind]
+
+    class Ent:
+        def __init__(self, key):
+            self.key = key
+
+        def py_truth(self, it):
+            return True
+
+        def py_getattr(self, it, name):
+            if name == method:
+                def call(x):
+                    def run(it2):
+                        log.append((self.key, x))
+                        aio.suspend(it2, ("update",))
+                    return aio.Awaitable(method, run)
+                return Builtin(method, call)
+            raise it.exc("AttributeError", name)
+
+    d = h.attr(E.at, target_attr)
+    keys = h.choice("known_entities", [[], [0], [0, 2], [1, 3, 15]])
+    for k in keys:
+        d[k] = Ent(k)
+    idf = {"acstatus": "ac_number", "timer": "ac_number", "zstatus": "group_number" if g == 4 else "zone_number"}[kind]
+    ident = h.int("record_id", 0, 63)
+
+    def make():
+        return Instance(h.get("pyairtouch.comms:UnsupportedMessage"), {idf: ident, "label": "generic-record"})
+
+    recs = AnyRecords(E.w, make)
+    pname = {"acstatus": "_process_ac_status_message", "timer": "_process_ac_timer_status_message", "zstatus": G["p_zstatus"]}[kind]
+    r = h.method(E.at, pname, recs)
+    h.oblige("dispatch never raises", r.ok)
+    if recs.generic is None:
+        h.oblige("nothing is applied outside the loop over the records", len(log) == 0)
+        return
+    known = [k for k in keys if h.branch(ident == k)]
+    if known:
+        h.oblige("a record whose id names a known entity is applied to exactly that entity, once, as it is",
+                 And(len(log) == 1, log[0][0] == known[0] if log else False, log[0][1] is recs.generic if log else False))
+    else:
+        h.oblige("a record with an unknown id is skipped (and does not stop the frame)", len(log) == 0)
+    h.cover("arbitrary record dispatched")
+
+
 def _build_model(h, g):
     """Names then abilities: exactly the zones / ACs the console described, each zone attached to the right AC.
     Installations are enumerated (bounded): 0..3 named zones out of {0, 1, 5}, one or two ACs."""
@@ -587,6 +670,8 @@ def _register(g):
     oset(n + ".dispatch", ["C10", "C09"], [_fn(g, "_process_ac_status_message"), _fn(g, "_process_ac_timer_status_message"),
                                            _fn(g, G["p_zstatus"]), _fn(g, "_process_ac_error_info_message")],
          bounded="0..3 records per frame, entity ids 0..3")(lambda h: _dispatch(h, g))
+    oset(n + ".dispatch-any-length", ["C10", "C09", "C14"], [_fn(g, "_process_ac_status_message"), _fn(g, "_process_ac_timer_status_message"),
+                                                              _fn(g, G["p_zstatus"])])(lambda h: _dispatch_any(h, g))
     oset(n + ".build-model", ["C09"], [_fn(g, G["p_names"]), _fn(g, "_process_ac_ability_message")],
          bounded="installations enumerated: 0..3 zones, 1..2 ACs, bitmap / single-AC / range layouts",
          assumptions=["self-consistent console: every group named in a bitmap or range has a name"])(lambda h: _build_model(h, g))
